@@ -14,7 +14,7 @@ import ast
 
 from .. import lin, nodewalk, paths, storewalk, tables, typestate
 from ..model import AnalysisError, Project, self_attr, walk_no_nested
-from ..report import Result
+from ..report import Result, ctx_of
 from ..tables import RG, RE, RI, TRIGGERS
 from .common import site, src
 from . import c02, c04
@@ -35,6 +35,7 @@ def run(p: Project, tier: str) -> Result:
     r.not_decided = ['order of becoming available (per-item timers)', 'same-instant ordering of token triggers']
     ws = storewalk.walks(p, assume_inv=('I1',))
     for w in ws:
+        r.ctx = ctx_of(w)
         r.paths += w.npaths
         c02.binding_checks(p, w, r, 'C06.R1', which=('binder', 'arrival', 'get'))
         c02.binding_checks(p, w, r, 'C06.R2', which=('cancel',))
@@ -89,6 +90,7 @@ def check_filter(p, w, r):
 
 def check_nodes(p: Project, r: Result):
     for w in nodewalk.walks(p):
+        r.ctx = ctx_of(w)
         r.paths += w.npaths
         for root, ps in w.roots.items():
             fi = w.root_funcs[root]
